@@ -1100,6 +1100,37 @@ fn main() {
                 None => println!("candidate=none"),
             }
         }
+        // compact_unopenable_newest : like get_unreadable_newest, but the newest table cannot be opened at all (damaged footer)
+        // and a manual compaction of the whole key space runs before the read
+        "compact_unopenable_newest" => {
+            use raindb::{ReadOptions, WriteOptions};
+            let mut o = raindb::DbOptions::with_memory_env();
+            o.db_path = "db".to_string();
+            o.create_if_missing = true;
+            {
+                let db = raindb::DB::open(o.clone()).expect("open");
+                for val in ["v1", "v2", "v3"] {
+                    db.put(WriteOptions::default(), b"key".to_vec(), val.as_bytes().to_vec()).unwrap();
+                    db.put(WriteOptions::default(), format!("only-{}", val).into_bytes(), val.as_bytes().to_vec()).unwrap();
+                    let _ = db.flush_for_verif();
+                }
+            }
+            let nums = v::table_numbers(&o);
+            let newest = *nums.last().expect("a table");
+            println!("damaged={}", v::flip_table_byte(&o, newest, usize::MAX));
+            match raindb::DB::open(o.clone()) {
+                Err(e) => println!("get_after_compaction=OpenErr({:?})", e),
+                Ok(db) => {
+                    db.compact_range(None..None);
+                    match db.get(ReadOptions::default(), b"key") {
+                        Ok(v) => println!("get_after_compaction=Ok({})", String::from_utf8_lossy(&v)),
+                        Err(raindb::errors::RainDBError::KeyNotFound) => println!("get_after_compaction=Err(KeyNotFound)"),
+                        Err(e) => println!("get_after_compaction=Err({})", format!("{:?}", e).chars().take(60).collect::<String>()),
+                    }
+                    println!("tables_after={:?}", v::table_numbers(&o));
+                }
+            }
+        }
         "vs_recover" => {
             // a database is created, written and closed; a fresh version set recovers from its files
             use raindb::WriteOptions;
